@@ -20,6 +20,24 @@ ASSUMPTIONS = [
 SIBLINGS = [("helpers.retries._wrap_sync.wrapped", False), ("helpers.retries._wrap_async.wrapped", True)]
 
 
+def inner_roles(an: Analysis, outer: FunctionInfo) -> dict[str, str]:
+    """Names under which `limit`, `delay` and `catching` of retry() arrive in a wrapper factory (its own parameter
+    names may differ): read off the call in retry._wrap that builds the wrapper."""
+    prog = an.prog
+    wrap = prog.fn("helpers.retries.retry._wrap")
+    dw = Deps(prog, wrap)
+    roles = {"limit": "limit", "delay": "delay", "catching": "catching"}
+    params = [a.arg for a in outer.node.args.posonlyargs + outer.node.args.args]
+    for c in [c for c in wrap.own_nodes() if isinstance(c, ast.Call) and an.callee(wrap, c) == outer.qualname]:
+        passed: dict[str, ast.AST] = {p: a for p, a in zip(params, c.args)}
+        passed.update({k.arg: k.value for k in c.keywords if k.arg})
+        for role in roles:
+            hits = [p for p, v in passed.items() if f"param:{role}" in dw.of(v)]
+            if len(hits) == 1:
+                roles[role] = hits[0]
+    return roles
+
+
 def check(an: Analysis) -> None:
     prog = an.prog
     ob1 = an.ob("C14.1", "K2+K11", "`while True` left only by `return <call result>` / `raise`; counter initialised by a constant, incremented by exactly 1 on every continuing path and nowhere else; guard normal form gives retries(limit) == limit, i.e. at most limit+1 calls", [s[0] for s in SIBLINGS])
@@ -36,6 +54,8 @@ def check(an: Analysis) -> None:
         va, kwa = vararg_names(f)
         outer = f.outer
         assert outer is not None
+        roles = inner_roles(an, outer)
+        LIMIT, DELAY, CATCHING = roles["limit"], roles["delay"], roles["catching"]
         # ------------------------------------------------------------ structure
         calls = [n for n in g.nodes if n.kind == "call" and isinstance(n.ast.func, ast.Name) and d.origins(n.ast.func) == {"param:function"}]  # type: ignore[union-attr]
         wloops = [n for n in f.own_nodes() if isinstance(n, ast.While)]
@@ -77,13 +97,13 @@ def check(an: Analysis) -> None:
         pol = "T"
         first_number = 1
         if form_b:
-            res = _range_budget(an, ob1, f, d, loop, final_calls[0], g)
+            res = _range_budget(an, ob1, f, d, loop, final_calls[0], g, LIMIT)
             if res is None:
                 continue
             ctr, first_number = res
             hentries = [t for t, lab in (_await_of(g, call) or call).succ if lab == "exc" and t.kind == "handler"]
         if not form_b:
-            res_a = _counter_budget(an, ob1, f, g, d, loop, head, call, tr)
+            res_a = _counter_budget(an, ob1, f, g, d, loop, head, call, tr, LIMIT)
             if res_a is None:
                 continue
             guard, incs, pol, ctr, hentries = res_a
@@ -119,13 +139,13 @@ def check(an: Analysis) -> None:
         matcher_ok = False
         for n in anys:
             gen = n.ast.args[0] if n.ast.args else None  # type: ignore[union-attr]
-            if isinstance(gen, (ast.GeneratorExp, ast.ListComp)) and len(gen.generators) == 1 and not gen.generators[0].ifs and is_name(gen.generators[0].iter, "catching"):
+            if isinstance(gen, (ast.GeneratorExp, ast.ListComp)) and len(gen.generators) == 1 and not gen.generators[0].ifs and is_name(gen.generators[0].iter, CATCHING):
                 el = gen.elt
                 tv = gen.generators[0].target
                 if isinstance(el, ast.Call) and is_name(el.func, "isinstance") and len(el.args) == 2 and is_name(el.args[0], exc_name or "") and isinstance(tv, ast.Name) and is_name(el.args[1], tv.id):
                     matcher_ok = True
                     ob4.inst(f, n.ast)
-        isin = [n for n in g.nodes if n.kind == "test" and within(n.ast, rh) and isinstance(n.ast, ast.Call) and is_name(n.ast.func, "isinstance") and len(n.ast.args) == 2 and is_name(n.ast.args[0], exc_name or "") and (is_name(n.ast.args[1], "catching") or (isinstance(n.ast.args[1], ast.Call) and is_name(n.ast.args[1].func, "tuple") and n.ast.args[1].args and is_name(n.ast.args[1].args[0], "catching")))]
+        isin = [n for n in g.nodes if n.kind == "test" and within(n.ast, rh) and isinstance(n.ast, ast.Call) and is_name(n.ast.func, "isinstance") and len(n.ast.args) == 2 and is_name(n.ast.args[0], exc_name or "") and (is_name(n.ast.args[1], CATCHING) or (isinstance(n.ast.args[1], ast.Call) and is_name(n.ast.args[1].func, "tuple") and n.ast.args[1].args and is_name(n.ast.args[1].args[0], CATCHING)))]
         if isin:
             matcher_ok = True
             anys = isin
@@ -140,7 +160,7 @@ def check(an: Analysis) -> None:
                 bound: dict[str, ast.AST] = dict(zip(params, n.ast.args))
                 bound.update({k.arg: k.value for k in n.ast.keywords if k.arg})
                 p_exc = next((k for k, v in bound.items() if is_name(v, exc_name or "")), None)
-                p_cat = next((k for k, v in bound.items() if is_name(v, "catching")), None)
+                p_cat = next((k for k, v in bound.items() if is_name(v, CATCHING)), None)
                 if p_exc and p_cat and _helper_tests_isinstance(t, p_exc, p_cat):
                     matcher_ok = True
                     anys = [n]
@@ -170,7 +190,7 @@ def check(an: Analysis) -> None:
             for n in g.nodes:
                 if n.kind == "call" and an.callee(f, n.ast) == "time.sleep":
                     ob6.fail(f, n.ast, "blocking time.sleep in the async wrapper")
-        ann = next((p.annotation for p in outer.params() if p.arg == "delay"), None)
+        ann = next((p.annotation for p in outer.params() if p.arg == DELAY), None)
         ann_txt = ast.unparse(ann) if ann is not None else ""
         rh_entry = next(n for n in g.nodes if n.kind == "handler" and n.ast is rh)
         kinds_of_delay = [("None", None), ("a float", A_FLOAT), ("a callable", A_FUNC)]
@@ -179,7 +199,7 @@ def check(an: Analysis) -> None:
         for label, value in kinds_of_delay:
 
             def base(e: ast.AST, value=value):
-                if is_name(e, "delay"):
+                if is_name(e, DELAY):
                     return value
                 if guard is not None and isinstance(e, ast.Compare) and e is guard.ast:
                     return pol == "T"  # a retry is being made
@@ -204,7 +224,7 @@ def check(an: Analysis) -> None:
                     arg = unwrap(vals_[0])  # the value computed for this kind of delay (e.g. by an inlined helper)
                 ob7.inst(f, sn.ast, f"delay is {label}")
                 if value is A_FUNC:
-                    ok = isinstance(arg, ast.Call) and d.origins(arg.func) <= {"param:delay"} and bool(d.origins(arg.func)) and len(arg.args) == 2 and not arg.keywords and is_name(arg.args[1], exc_name or "")
+                    ok = isinstance(arg, ast.Call) and d.origins(arg.func) <= {f"param:{DELAY}"} and bool(d.origins(arg.func)) and len(arg.args) == 2 and not arg.keywords and is_name(arg.args[1], exc_name or "")
                     if ok and form_b:
                         from ..domains import linear_form
 
@@ -222,9 +242,9 @@ def check(an: Analysis) -> None:
                         if w is not None:
                             ob7.fail(f, sn.ast, "the delay function sees the attempt number before it was advanced (attempt numbers start at 1)", CFG.show_path(w))
                 else:
-                    if isinstance(arg, ast.Call) and d.origins(arg.func) <= {"param:delay"} and d.origins(arg.func):
+                    if isinstance(arg, ast.Call) and d.origins(arg.func) <= {f"param:{DELAY}"} and d.origins(arg.func):
                         ob5.fail(f, sn.ast, f"delay is declared `{ann_txt}` but {label} is not matched by the numeric arm: it falls into the callable arm and is *called* (TypeError on the first failure)")
-                    elif not (arg is not None and d.origins(arg) <= {"param:delay"} and d.origins(arg)):
+                    elif not (arg is not None and d.origins(arg) <= {f"param:{DELAY}"} and d.origins(arg)):
                         ob7.fail(f, sn.ast, "the numeric arm does not pause for the configured number")
         # no pause once the decision not to retry is taken (exactly limit pauses for limit+1 calls)
         raises_in_h = [n for n in g.nodes if n.kind == "raise" and within(n.ast, rh)]
@@ -242,22 +262,28 @@ def check(an: Analysis) -> None:
         raise AnalysisError("C14.4: retry._wrap is expected to dispatch to _wrap_sync and _wrap_async")
     for c in ctor:
         ob4.inst(wrap, c)
-        kws = {k.arg: k.value for k in c.keywords}
-        cv = kws.get("catching")
+        target = prog.functions[an.callee(wrap, c)]
+        troles = inner_roles(an, target)
+        tparams = [a.arg for a in target.node.args.posonlyargs + target.node.args.args]
+        kws = {p_: a_ for p_, a_ in zip(tparams, c.args)}
+        kws.update({k.arg: k.value for k in c.keywords if k.arg})
+        dwrap = Deps(prog, wrap)
+        cv = kws.get(troles["catching"])
+        cv = unwrap(dwrap.inline(cv)) if cv is not None else None  # may be computed once into a local
         ok = isinstance(cv, ast.IfExp) and is_name(cv.body, "catching") and isinstance(cv.orelse, (ast.Set, ast.Tuple, ast.List)) and len(cv.orelse.elts) == 1 and is_name(cv.orelse.elts[0], "catching") and isinstance(cv.test, ast.Call) and is_name(cv.test.func, "isinstance")
         if not ok:
             ob4.fail(wrap, c, "a single exception class is not normalised to a collection (iterating a class raises TypeError on the first failure)")
-        if not (is_name(kws.get("limit"), "limit") and is_name(kws.get("delay"), "delay") and c.args and is_name(c.args[0], "function")):
+        if not (is_name(kws.get(troles["limit"]), "limit") and is_name(kws.get(troles["delay"]), "delay") and c.args and is_name(c.args[0], "function")):
             ob4.fail(wrap, c, "limit / delay / function are not passed on unchanged")
 
 
-def _counter_budget(an: Analysis, ob1, f: FunctionInfo, g: CFG, d: Deps, loop: ast.AST, head: Node, call: Node, tr: ast.Try):
+def _counter_budget(an: Analysis, ob1, f: FunctionInfo, g: CFG, d: Deps, loop: ast.AST, head: Node, call: Node, tr: ast.Try, LIMIT: str = "limit"):
     """Form A: `while True` with an attempt counter compared with `limit`.  Returns (guard, incs, pol, ctr, hentries) or None."""
     guards = []
     for n in g.nodes:
         if n.kind == "test" and within(n.ast, tr) and isinstance(n.ast, ast.Compare):
             names = {x.id for x in ast.walk(n.ast) if isinstance(x, ast.Name)}
-            if "limit" in names and len(n.ast.ops) == 1:
+            if LIMIT in names and len(n.ast.ops) == 1:
                 guards.append(n)
     if len(guards) != 1:
         ob1.fail(f, tr, f"expected exactly one retry guard comparing the attempt counter with `limit`, found {len(guards)}")
@@ -266,11 +292,11 @@ def _counter_budget(an: Analysis, ob1, f: FunctionInfo, g: CFG, d: Deps, loop: a
     ob1.inst(f, guard.ast, "retry guard")
     cmpn: ast.Compare = guard.ast  # type: ignore[assignment]
     sides = [cmpn.left, cmpn.comparators[0]]
-    ctr = next((s.id for s in sides if isinstance(s, ast.Name) and s.id != "limit"), None)
-    if ctr is None or not any(is_name(s, "limit") for s in sides):
+    ctr = next((s.id for s in sides if isinstance(s, ast.Name) and s.id != LIMIT), None)
+    if ctr is None or not any(is_name(s, LIMIT) for s in sides):
         raise AnalysisError(f"C14.1: unrecognised retry guard `{stmt_text(cmpn)}`")
     op = type(cmpn.ops[0])
-    if is_name(cmpn.left, "limit"):
+    if is_name(cmpn.left, LIMIT):
         op = {ast.Lt: ast.Gt, ast.LtE: ast.GtE, ast.Gt: ast.Lt, ast.GtE: ast.LtE}.get(op, op)
     # polarity: which outcome of the comparison lets the loop continue (`if c < limit: retry` or `if c >= limit: raise`)
     cont = {lab for t, lab in guard.succ if lab in ("T", "F") and g.search([t], lambda n: n is head, skip_edge=normal_only, include_start=True) is not None}
@@ -329,7 +355,7 @@ def _counter_budget(an: Analysis, ob1, f: FunctionInfo, g: CFG, d: Deps, loop: a
     return guard, incs, pol, ctr, hentries
 
 
-def _range_budget(an: Analysis, ob1, f: FunctionInfo, d: Deps, loop: ast.For, final_call: Node, g: CFG):
+def _range_budget(an: Analysis, ob1, f: FunctionInfo, d: Deps, loop: ast.For, final_call: Node, g: CFG, LIMIT: str = "limit"):
     """Form B: `for <attempt> in range(...)` makes one guarded attempt per element, then one final, unguarded attempt.
     The range must have exactly `limit` elements and be produced per invocation.  Returns (counter name, first element) or None."""
     from ..domains import linear_form
@@ -372,8 +398,8 @@ def _range_budget(an: Analysis, ob1, f: FunctionInfo, d: Deps, loop: ast.For, fi
     count = dict(hi)
     count["1"] = count.get("1", 0) - first
     count = {k: v for k, v in count.items() if v != 0}
-    if count != {"name:limit": 1}:
-        extra = count.get("1", 0) if set(count) <= {"name:limit", "1"} and count.get("name:limit") == 1 else None
+    if count != {f"name:{LIMIT}": 1}:
+        extra = count.get("1", 0) if set(count) <= {f"name:{LIMIT}", "1"} and count.get(f"name:{LIMIT}") == 1 else None
         ob1.fail(f, loop, f"`{stmt_text(it, 50)}` yields " + (f"limit{int(extra):+d}" if extra is not None else "a number other than `limit`") + " guarded attempts: with the final attempt the wrapper makes " + (f"limit{int(extra) + 1:+d}" if extra is not None else "?") + " calls instead of limit+1")
         return None
     # the final attempt: reached when the loop is exhausted, outcome handed over as it is
